@@ -1706,3 +1706,75 @@ def translate(repo):
         raise pycoro2coq.TranslatorGap('the generated definitions do not type-check: ' + out[-1200:])
     info.update(functions=tinfo['functions'], notes=tinfo['notes'], selftest=_selftest(pycoro2coq))
     return info
+
+
+# ---- translator tie, second batch (added): rms, event_rate, transform, mc_reference, iirfilter --------------------------------
+TIE_STAGES2 = {'rms': [('check_rms true ', 'gcheck_rms '), ('check_rms_x true ', 'gcheck_rms_x ')],
+               'event_rate': [('check_event_rate true ', 'gcheck_event_rate ')],
+               'transform': [('check_map ', 'gcheck_transform ')], 'mc_reference': [('check_map ', 'gcheck_mc_reference ')],
+               'iirfilter': [('check_iir_e true ', 'gcheck_iirfilter ')]}
+TRUSTED = TRUSTED + [
+    'translate/pycoro2coq.py, second batch: rms (n = int(round(fs * duration)) -> abstract n; the reshape / astype(double) / '
+    'np.mean(d ** 2, axis=-1) ** 0.5 lines pinned -> rms_value with the abstract block value agg; the FLOAT s0 of the mean and the '
+    'counter `out_s0 + n_blocks` pinned -> abstract s0div / s0add, instantiated as (s / n, +) and as (s, + n * k) = n times the exact '
+    'rational value; data[-1] -> py_last), event_rate (Events.start/.end/.range_samples/get_range_samples/combine_events -> e_lo / '
+    'e_hi / get_range / combine_events of the model; half-sample s0 kept doubled; keep = sample >= start + Events(..) -> trim_left; '
+    'b.rate() -> event count; PipelineData([rate], s0, fs) -> Rb), transform / mc_reference (function(data) / matrix @ chunk -> '
+    'map_blk of an abstract per-sample function), iirfilter (design / stability / lfilter_zi pinned, zi * y[..., :1] -> abstract '
+    'finit, lfilter -> mapAccum; the waiting loop on empty chunks -> state None).  x.channel = e -> set_ch; an annotation read on '
+    'an array not known to be PipelineData -> None (AttributeError); after x.s0 = / x.channel = the translator tracks the '
+    'annotation record of x itself.  Self-test: 60 + 70 inputs.']
+
+
+def _tie_cases2():
+    import random
+    rng = random.Random(20261002)
+    out = []
+    shapes = [[3, 3, 4], [1, 0, 1, 1, 5, 0, 2], [7], [0, 2, 6, 1], [2, 2, 2, 2, 3], [5, 1, 1, 9], [0, 0, 4, 4]]
+    for st, ps in (('rms', [{'n': 1}, {'n': 2}, {'n': 3}, {'n': 5}]), ('transform', [{'fn': 'affine'}, {'fn': 'neg'}]),
+                   ('mc_reference', [{'matrix': [[1, -1], [0, 1]]}, {'matrix': [[2, 1], [1, 1]]}]),
+                   ('iirfilter', [{'order': 1}, {'order': 2}])):
+        k = 0
+        for two in (False, True):
+            for ann in (False, True):
+                for _ in range(3):
+                    p, sizes = ps[k % len(ps)], shapes[k % len(shapes)]
+                    k += 1
+                    s0 = None
+                    if st == 'rms' and ann:
+                        s0 = p['n'] * rng.choice([0, 3, -2])          # on the block grid; off-grid cases below
+                    out.append(_case(st, p, two, ann, sizes, rng, s0=s0))
+    out += list(itertools.islice(_rms_offgrid_cases(rng, 3), 10))
+    for sizes, bsz, stp in (([9], 3, 2), ([2, 3, 4], 3, 1), ([5, 0, 5, 7], 4, 4), ([1, 1, 1, 1, 8], 2, 5), ([20, 3], 7, 3),
+                            ([4, 4, 4], 1, 1), ([0, 6, 6], 5, 2), ([30], 10, 10), ([3, 9, 2, 11], 6, 4), ([12, 1], 0, 3),
+                            ([7, 7], 8, 1), ([2, 2, 2, 2, 2, 2], 3, 3)):
+        out.append(_er_case(rng, sizes, bsz, stp))
+    return out
+
+
+def _selftest(pycoro2coq):                      # replaces the first-batch self-test: both batches
+    """the emitted definitions (evaluated by coqc on the model's executable instance) against the REAL coroutines"""
+    import vlib
+    terms, used = [], []
+    for c in _tie_cases() + _tie_cases2():
+        try:
+            res = impl(c)
+        except Exception as e:                      # the code under test raises: the generated step must say None
+            res = {'raised_allowed': f'{type(e).__name__}'}
+        if 'crash' in res:
+            continue
+        t = term(c, res) if 'raised_allowed' not in res or c['stage'] != 'event_rate' else None
+        if t is None:
+            continue
+        pairs = [TIE_STAGES[c['stage']]] if c['stage'] in TIE_STAGES else TIE_STAGES2[c['stage']]
+        hit = [(old, new) for old, new in pairs if old in t]
+        if len(hit) != 1:
+            raise pycoro2coq.TranslatorGap(f'self-test: no model term for {c}')
+        terms.append(t.replace(*hit[0]))
+        used.append(c)
+    bad = vlib.run_cases(PROP, ['Stages.Model', 'gen.StagesStepGen'], terms, tag='tie')
+    if bad:
+        raise pycoro2coq.TranslatorGap(
+            f'self-test: the generated definition disagrees with the real coroutine on {len(bad)} of {len(terms)} inputs, '
+            f'first: {used[bad[0]]}')
+    return {'evaluations': len(terms), 'disagreements': 0}
